@@ -34,6 +34,10 @@ def main():
     meta = json.load(open(os.path.join(seed, "meta.json")))
     demo_dir = meta.get("demo_dir", "gbn")
     demo_cmd = meta.get("demo_cmd", "go test -vet=off -count=1 -run TestSeedDemo .")
+    if "go test" in demo_cmd:
+        demo_cmd = demo_cmd[demo_cmd.index("go test"):]
+    if "-timeout" not in demo_cmd:
+        demo_cmd = demo_cmd.replace("go test", "go test -timeout 300s", 1)
     wt = tempfile.mkdtemp(prefix="ev-", dir="/tmp")
     os.rmdir(wt)
     res = {"seed": seed, "property": meta.get("property")}
